@@ -360,6 +360,10 @@ func C04(c *core.Ctx) {
 	c.Floor("R4.6", "constant / last-element indices into decoded slices", nConstDecided, 2)
 
 	c04Round4(c)
+	// ---- R4.11 (shared with C03 R3.6) the segmented reader steps over every exhausted segment
+	c.Import(C03, "R4.11", "a wire with two empty segments in a row (which the no-copy encoder emits for an empty content buffer) makes the segmented reader index out of range: ReadData / ReadPacket panic", 1, func(k string) bool {
+		return strings.HasPrefix(k, "R3.6:segment-advance")
+	})
 
 	// ---- R4.7 optional elements of a decoded message are dereferenced only where they were
 	// found present: in the function, through the presence of a coupled element, or at
